@@ -93,7 +93,7 @@ def check_case(case, stats=None, K=oracle.K_QUICK, known=None):
                 # the expected fall-through (F-D1) hides the register clobber that explains the difference
                 sig, extra = oracle.clobber_signature(tm.clobbers[0]), {"clobber": tm.clobbers[0]}
             if sig and sig.startswith("C04:clobber"):
-                sig += oracle.clobber_shape_suffix(srcs, sig)
+                sig += oracle.clobber_shape_suffix(srcs, sig, (extra or {}).get("clobber"))
             if sig is None or sig.startswith("C07:fallthrough"):
                 sig = "C07:trace-differs-before-main-ends:" + d["what"] if it.halted == "end" else "C01:mismatch:" + d["what"]
             raise Violation(sig, dict(detail, compare=d, root=extra,
